@@ -14,8 +14,8 @@ CLAIMS = {
    note=PROOF_NOTE + "Argument binding (inspect.Signature.bind) and Python arithmetic are exercised by the oracle, not modelled; names are resolved by the harness (flat world: one space, a child space for attribute-path references).",
    tech="Lean 4 refinement proof (memoised mechanism refines spec, induction on depth and on Prog) + differential correspondence"),
  "C05": dict(
-   text="Lean theorems over all formula behaviours and failure points (raise at any depth, None where not allowed, depth limit): every top-level call leaves call stack, index stack, reference stack and roll-back list empty (failure_quiescent, proved by a frame lemma for _eval_formula); the FormulaError carries the spec's error and all held values stay the spec's (failure_consistent_partial); later evaluations are unaffected (retry_unaffected_partial); failing elements hold no value; held values are kept; chains within the limit never hit it (below_limit_no_deep). Tied to /repo by differential runs (results, values, trace graph, stack emptiness) and an oracle using the interpreter's own traceback of the original exception.",
-   note=PROOF_NOTE + "'does not crash the interpreter' is a CPython C-stack fact: exercised only. Theorems marked _partial assume the limit was not hit inside a try (see C01).",
+   text="Lean theorems over all formula behaviours and failure points (raise at any depth, None where not allowed; for exceeding the depth limit see the note): every top-level call leaves call stack, index stack, reference stack and roll-back list empty (failure_quiescent, proved by a frame lemma for _eval_formula); the FormulaError carries the spec's error and all held values stay the spec's (failure_consistent_partial); later evaluations are unaffected (retry_unaffected_partial); failing elements hold no value; held values are kept; chains within the limit never hit it (below_limit_no_deep). Tied to /repo by differential runs (results, values, trace graph, stack emptiness) and an oracle using the interpreter's own traceback of the original exception.",
+   note=PROOF_NOTE + "'does not crash the interpreter' is a CPython C-stack fact: exercised only. Theorems marked _partial assume that the recursion limit was NEVER hit - neither in this call nor in any earlier one of the history (the model's ghost flag `hit` is sticky): for the depth-limit failure itself only failure_quiescent and the held-values-are-kept half are proved in C05; consistency after a limit failure for programs that do not catch failures follows from C02's eval_keeps_certificates (no depth hypothesis). Lifting the sticky flag (the mechanism never reads it) is open work.",
    tech="Lean 4 invariant proofs (stack discipline, soundness under failure) + differential correspondence"),
  "C19": dict(
    text="Lean 4 theorems over the registry state machine (all operation sequences, all names): invariant name->model with that name, unique names and identities, no model dropped except by its own close, close removes exactly one; tied to /repo by differential runs of the model driver against mx.new_model/read_model/rename/close after every op. Isolation between models is checked by an implementation-only oracle (not a theorem).",
